@@ -47,11 +47,21 @@ Rules == << <<"M","3",".","5",".","0">>, <<"M","1","3",".","1",".","0">>, <<"M",
             <<"M","3",".","5",".","0","/">>, <<"M","3",".","5",".","0","/","2",":","6","0">>,
             <<"M","1","2",".","5",".","6","/","2","4",":","5","9",":","5","9">>, <<"J","6","0","/","1","6","7",":","5","9",":","5","9">>,
             <<"M","2","5","5",".","2","5","5",".","2","5","5">>, <<"M","2","5","6",".","1",".","0">>, <<"M","3",".","5",".","0","x">> >>
+\* well-formed rules in every month: evaluated at both ends of the representable range, where the
+\* rule day itself may not be representable
+MonthDigits(m) == IF m < 10 THEN <<CHOOSE c \in {"1","2","3","4","5","6","7","8","9"} : c = <<"1","2","3","4","5","6","7","8","9">>[m]>>
+                  ELSE <<"1", <<"0","1","2">>[m - 9]>>
+EveryMonth == UNION {{ <<"M">> \o MonthDigits(m) \o <<".", "5", ".", "0">>, <<"M">> \o MonthDigits(m) \o <<".", "1", ".", "3">>,
+                       <<"M">> \o MonthDigits(m) \o <<".", "3", ".", "2", "/", "2", "4">> } : m \in 1..12}
 Comma == <<",">>
 FooterText(h, a, b) == Heads[h] \o Comma \o Rules[a] \o Comma \o Rules[b]
 Footers == {[kind |-> "footer", text |-> FooterText(h, a, b), noend |-> FALSE] :
                h \in 1..Len(Heads), a \in 1..Len(Rules), b \in (IF Thorough THEN 1..Len(Rules) ELSE {1, 2, 5, 7, 10, 13, 18, 25})}
            \cup {[kind |-> "footer", text |-> Heads[h], noend |-> e] : h \in 1..Len(Heads), e \in BOOLEAN}
+           \cup {[kind |-> "footer", text |-> Heads[h] \o Comma \o a \o Comma \o b, noend |-> FALSE] :
+                   h \in {1, 3}, a \in EveryMonth, b \in {Rules[1], <<"J","1">>, <<"J","3","6","5">>, <<"0">>, <<"M","7",".","3",".","2">>}}
+           \cup {[kind |-> "footer", text |-> Heads[h] \o Comma \o b \o Comma \o a, noend |-> FALSE] :
+                   h \in {1}, a \in EveryMonth, b \in {Rules[1], <<"J","6","0">>}}
 
 Structural == Counts \cup Cuts \cup Versions \cup TypeIdx \cup Magic
 
